@@ -413,7 +413,7 @@ fn run_one(cfg: &Cfg, tier: Tier, i: u64, seed: u64, c: &mut Counters) -> Vec<Vi
             hh.steps = rec.lock().unwrap().clone();
             out.push(Violation { property: cfg.prop.into(), class: "panic".into(), message: format!("a public call panicked during a single-client history (last step {:?}): {m}", hh.steps.last()), seed, run: i, payload: serde_json::to_value(Payload { flavour, history: hh }).unwrap(), known: None });
         }
-        Outcome::Deadlock(_) | Outcome::StepBound => {
+        Outcome::Deadlock(_) | Outcome::StepBound | Outcome::Livelock => {
             c.inc("history_blocked");
         }
     }
